@@ -78,6 +78,7 @@ type interpreter struct {
 	skipExt     *ssa.Function
 	curFr       *frame
 	divCache    map[divKey][2]*smt.Term
+	mulBack     map[divKey]*smt.Term
 	opaqueAlloc bool
 }
 
